@@ -2274,7 +2274,7 @@ func (e *SpecEnv) recApply(sf *SpecFunc, args []Val) Val {
 		names[p.Name] = args[i]
 	}
 	evalBody := func() Val {
-		ne := &SpecEnv{x: x, fr: e.fr, st: e.st, old: e.old, names: names, pkg: sf.Pkg, depth: e.depth + 1}
+		ne := &SpecEnv{x: x, fr: e.fr, st: e.st, old: e.old, names: names, pkg: sf.Pkg, depth: e.depth + 1, locals: e.locals}
 		x.unfoldDepth[sf.Name]++
 		defer func() { x.unfoldDepth[sf.Name]-- }()
 		return ne.eval(sf.Body)
@@ -2343,14 +2343,15 @@ func (e *SpecEnv) recApply(sf *SpecFunc, args []Val) Val {
 	if x.con != nil && x.con.Opts["fuel"] != "" {
 		fmt.Sscan(x.con.Opts["fuel"], &fuel)
 	}
-	if x.unfoldDepth[sf.Name] < fuel && !e.st.applied["unfold:"+t] && !strings.Contains(t, "?") {
-		e.st.applied["unfold:"+t] = true
+	// inside old() the application reads the pre-state, but the unfolding is a fact of the current path
+	pst := e.st
+	if e.locals != nil {
+		pst = e.locals
+	}
+	if x.unfoldDepth[sf.Name] < fuel && !pst.applied["unfold:"+t] && !strings.Contains(t, "?") {
+		pst.applied["unfold:"+t] = true
 		b := evalBody()
-		if b.K == KBool {
-			e.st.assume(sEq(t, b.S))
-		} else {
-			e.st.assume(sEq(t, b.S))
-		}
+		pst.assume(sEq(t, b.S))
 	}
 	return res
 }
